@@ -165,6 +165,12 @@ pub struct RH {
     pub log: Vec<Value>,
     pub start: String,
     pub shape: String,
+    /// an entry handle obtained earlier from the field and kept across operations (entry index, handle)
+    pub held_entry: Option<(usize, Entry)>,
+    /// a relation handle kept across operations (entry index, alternative index, handle)
+    pub held_rel: Option<(usize, usize, Relation)>,
+    /// use the kept handles (when they address the operation's target) instead of fetching fresh ones
+    pub use_held: bool,
 }
 
 fn entry_pos(model: &[MItem], i: usize) -> usize {
@@ -201,7 +207,7 @@ impl RH {
         if !errs.is_empty() {
             return None;
         }
-        Some(RH { root, model, log: vec![], start: text.to_string(), shape: String::new() })
+        Some(RH { root, model, log: vec![], start: text.to_string(), shape: String::new(), held_entry: None, held_rel: None, use_held: true })
     }
 
     fn fail(&self, ctx: &mut Ctx, kind: &str, op: &Op, info: Value) {
@@ -244,31 +250,67 @@ impl RH {
         let before_pipes = pipe_surplus(&before_text, &self.model);
         // ---- real object
         let root = &mut self.root;
+        let use_held = self.use_held;
+        let held_entry = &mut self.held_entry;
+        let held_rel = &mut self.held_rel;
         let res = guard(before_text.len() + 512, || {
-            let rel = |root: &Relations, i: usize, j: usize| root.get_entry(i).unwrap().get_relation(j).unwrap();
-            match op {
-                Op::Push(v, c) => root.push(build_entry(v, *c)),
-                Op::Insert(i, v, c) => root.insert(*i, build_entry(v, *c)),
-                Op::Replace(i, v, c) => root.replace(*i, build_entry(v, *c)),
-                Op::RemoveEntry(i) => {
-                    root.remove_entry(*i);
+            // entry / relation handles: the ones kept from an earlier operation when they address the
+            // same target (an edit through a handle must be visible in the field), otherwise fresh ones,
+            // which are then kept for later operations
+            let mut entry = |root: &Relations, i: usize| -> *mut Entry {
+                if !(use_held && matches!(held_entry, Some((k, _)) if *k == i)) {
+                    *held_entry = Some((i, root.get_entry(i).unwrap()));
                 }
-                Op::EntryRemove(i) => root.get_entry(*i).unwrap().remove(),
-                Op::EntryPush(i, m, c) => root.get_entry(*i).unwrap().push(build_relation(m, *c)),
-                Op::EntryReplace(i, j, m, c) => root.get_entry(*i).unwrap().replace(*j, build_relation(m, *c)),
-                Op::EntryRemoveRel(i, j) => {
-                    root.get_entry(*i).unwrap().remove_relation(*j);
+                &mut held_entry.as_mut().unwrap().1 as *mut Entry
+            };
+            let mut rel = |root: &Relations, i: usize, j: usize| -> *mut Relation {
+                if !(use_held && matches!(held_rel, Some((a, b, _)) if *a == i && *b == j)) {
+                    *held_rel = Some((i, j, root.get_entry(i).unwrap().get_relation(j).unwrap()));
                 }
-                Op::RelRemove(i, j) => rel(root, *i, *j).remove(),
-                Op::SetVersion(i, j, v) => rel(root, *i, *j).set_version(v.as_ref().map(|(o, v)| (vc(o), debversion::Version::from_str(v).unwrap()))),
-                Op::DropConstraint(i, j) => {
-                    rel(root, *i, *j).drop_constraint();
+                &mut held_rel.as_mut().unwrap().2 as *mut Relation
+            };
+            unsafe {
+                match op {
+                    Op::Push(v, c) => root.push(build_entry(v, *c)),
+                    Op::Insert(i, v, c) => root.insert(*i, build_entry(v, *c)),
+                    Op::Replace(i, v, c) => root.replace(*i, build_entry(v, *c)),
+                    Op::RemoveEntry(i) => {
+                        root.remove_entry(*i);
+                    }
+                    Op::EntryRemove(i) => (*entry(root, *i)).remove(),
+                    Op::EntryPush(i, m, c) => (*entry(root, *i)).push(build_relation(m, *c)),
+                    Op::EntryReplace(i, j, m, c) => (*entry(root, *i)).replace(*j, build_relation(m, *c)),
+                    Op::EntryRemoveRel(i, j) => {
+                        (*entry(root, *i)).remove_relation(*j);
+                    }
+                    Op::RelRemove(i, j) => (*rel(root, *i, *j)).remove(),
+                    Op::SetVersion(i, j, v) => (*rel(root, *i, *j)).set_version(v.as_ref().map(|(o, v)| (vc(o), debversion::Version::from_str(v).unwrap()))),
+                    Op::DropConstraint(i, j) => {
+                        (*rel(root, *i, *j)).drop_constraint();
+                    }
+                    Op::SetArchqual(i, j, a) => (*rel(root, *i, *j)).set_archqual(a),
+                    Op::SetArchs(i, j, a) => (*rel(root, *i, *j)).set_architectures(a.iter().map(|s| s.as_str())),
+                    Op::AddProfile(i, j, p) => (*rel(root, *i, *j)).add_profile(&profile_of(p)),
                 }
-                Op::SetArchqual(i, j, a) => rel(root, *i, *j).set_archqual(a),
-                Op::SetArchs(i, j, a) => rel(root, *i, *j).set_architectures(a.iter().map(|s| s.as_str())),
-                Op::AddProfile(i, j, p) => rel(root, *i, *j).add_profile(&profile_of(p)),
             }
         });
+        // kept handles stay valid only while their target keeps its place in the lists
+        match op {
+            Op::Push(..) => {}
+            Op::Insert(..) | Op::Replace(..) | Op::RemoveEntry(..) | Op::EntryRemove(..) => {
+                self.held_entry = None;
+                self.held_rel = None;
+            }
+            Op::EntryReplace(..) | Op::EntryRemoveRel(..) | Op::RelRemove(..) => {
+                // alternatives moved (and the entry may be gone when its last alternative went)
+                self.held_rel = None;
+                if !matches!(op, Op::EntryReplace(..)) {
+                    self.held_entry = None;
+                }
+            }
+            Op::EntryPush(..) => {}
+            _ => {}
+        }
         // ---- model
         let mut touched: Option<usize> = None; // entry index (after the op) whose text may change
         let mut removed: Option<usize> = None;
@@ -514,7 +556,7 @@ fn empty_lane(ctx: &mut Ctx, idx: u64) {
         1 => Relations::from(vec![]),
         _ => Relations::from_str("").unwrap_or_default(),
     };
-    let h = RH { root, model: vec![], log: vec![], start: String::new(), shape: String::new() };
+    let h = RH { root, model: vec![], log: vec![], start: String::new(), shape: String::new(), held_entry: None, held_rel: None, use_held: true };
     let nops = r.range(1, if ctx.thorough() { 12 } else { 7 });
     run_history(ctx, h, &mut r, nops);
 }
